@@ -227,3 +227,15 @@ def cases(thorough):
     for k, body in ASSIGN.items():
         for n in (0, 1, 2):
             yield case(f"stmt/assign/{k}/{n}", f"def case__S__(n):\n{body}", f"case__S__({n})")
+
+
+STRIPES = 6
+
+
+def tasks(thorough, seed):
+    return [("stmt", thorough, i) for i in range(STRIPES)]
+
+
+def expand(desc):
+    _, thorough, i = desc
+    return itertools.islice(cases(thorough), i, None, STRIPES)
